@@ -112,6 +112,36 @@ def _basic(out, m, idx, what):
     return pa
 
 
+def _own_decomposition(m_aligned):
+    """Browaeys & Chevrot decomposition of an axis-aligned orthorhombic tensor, for each of
+    the three possible symmetry axes: list of (distance to hexagonal, percentages, axis index).
+    Uses pydrex.tensors projectors (their algebra is verified by C11)."""
+    from pydrex import tensors as T
+
+    t = ref_tensor(m_aligned)
+    K, G, iso6 = _iso_part(m_aligned)
+    out = []
+    I = np.eye(3)
+    for i in range(3):
+        P = I[:, [(i + j) % 3 for j in range(3)]]
+        v = T.voigt_matrix_to_vector(ref_voigt(np.einsum("ia,jb,kc,ld,abcd->ijkl", P.T, P.T, P.T, P.T, t)))
+        iso = T.voigt_matrix_to_vector(iso6)
+        mono = T.mono_project(v)
+        orth = T.ortho_project(mono)
+        tetr = T.tetr_project(orth)
+        hexa = T.hex_project(tetr)
+        n = np.linalg.norm(v)
+        pct = {
+            "percent_triclinic": 100 * np.linalg.norm(v - mono) / n,
+            "percent_monoclinic": 100 * np.linalg.norm(mono - orth) / n,
+            "percent_orthorhombic": 100 * np.linalg.norm(orth - tetr) / n,
+            "percent_tetragonal": 100 * np.linalg.norm(tetr - hexa) / n,
+            "percent_hexagonal": 100 * np.linalg.norm(hexa - iso) / n,
+        }
+        out.append((float(np.linalg.norm(v - hexa)), pct, (i + 2) % 3))
+    return out
+
+
 def _perm_gap(m_aligned):
     """Relative gap between best and second-best hexagonal distance over the three
     axis choices of an axis-aligned orthorhombic tensor (uses pydrex.tensors, trusted by C11)."""
@@ -159,6 +189,13 @@ def check_orthorhombic(case):
     require(e <= 1e-7, f"hexagonal axis does not co-rotate: Q.axis0={Q @ a0}, axis'={a1}", e)
     # unrotated axis-aligned orthorhombic tensor: the axis is a coordinate axis
     require(np.sort(np.abs(a0))[1] <= 1e-9, f"hexagonal axis of an axis-aligned orthorhombic tensor is not a coordinate axis: {a0}")
+    # ... namely the one that gives the closest hexagonal approximation, with the class
+    # percentages of the decomposition about that axis
+    own = sorted(_own_decomposition(m0), key=lambda x: x[0])
+    best = own[0]
+    require(int(np.argmax(np.abs(a0))) == best[2], f"reported hexagonal axis {a0} is not the axis of the closest hexagonal approximation (coordinate axis {best[2]}; distances {[round(o[0], 6) for o in own]})")
+    for k, v in best[1].items():
+        require(abs(out[k][0] - v) <= 1e-7, f"{k} = {out[k][0]!r}, decomposition about the best axis gives {v!r}")
     return {"nontrivial": gen.angle_from_axis24(Q) >= 5.0, "labels": [case["C"]["k"], case["Q"]["k"]], "residual": max(worst, e)}
 
 
